@@ -673,3 +673,133 @@ Theorem C06_mux_reselect_default_from_source :
 Proof. exact (conj MuxInitProofs.mux_add_reselect_from_source MuxInitProofs.mux_set_default_from_source). Qed.
 Print Assumptions C06_mux_reselect_default_from_source.
 (* ==== end of block (unit muxc) ==== *)
+
+(* ==== connect composed with the generated mux.c / bay.c (units connect + muxc + bayc) ==== *)
+(* The generated connect functions (unit connect) call mux_init / mux_set_input / mux_add_reselect / mux_set_default /
+   bay_register as primitives whose meaning Emu/ConnectPre.v writes by hand.  These theorems derive those meanings from the
+   GENERATED mux.c / bay.c (Gen/MuxInit_gen.v, Gen/Bay_gen.v), for every connect state:
+   C06_connect_mux_init_composed: ConnectPre.mux_init = run the generated mux_init on a fresh struct mux next to the connect
+   state's bay (select / output = the registered ids of the two channel objects, this mux's id = the next mux id), then commit
+   the struct, read as a BayDefs mux record (MuxInitProofs.record_of), at the end of the mux table and record the id in the
+   track / breakdown object; refusals correspond (E_FAIL <-> E_FAIL).  Reg: every registered address has a channel and a
+   callback list (kept by bay_register and mux_init: C06_connect_reg_kept).
+   C06_connect_mux_set_input_composed, C06_connect_mux_default_reselect_composed: simulation through Rep (the struct is the
+   record stored under the mux id; channels, callback lists, dirty list are the same): the generated function and
+   ConnectPre's primitive both succeed and Rep holds again.
+   C06_connect_bay_register_composed: ConnectPre.bay_register = the generated bay_register on the channel named by its id
+   (a fresh name when it is not registered yet: distinct objects have distinct names is the trusted reading of the name
+   formats), the duplicate refusal included.
+   C06_mux_bay_add_cb_composed: the bay_add_cb primitive of Emu/MuxInitPre.v is the generated bay_add_cb for the callbacks
+   mux.c registers enabled.
+   STILL MISSING for dropping `_partial` from C06_wiring_from_source_partial: (a) the induction over the numbers of threads /
+   CPUs / channel specs (the wiring theorems remain computations over families + the decidable certificate); (b) prv_register
+   (prv.c) and chan_init (chan.c: memset + name) of ConnectPre are hand-written: neither function is in a translated unit.
+   C06_connect_chan_prop_set_composed: ConnectPre.chan_prop_set on a chan_init'ed object is the generated chan_prop_set of
+   unit chan on the struct chan whose prop array is [0; allow; ign] (ALLOW_DUP / IGNORE_DUP, values 0 / 1).
+   C06_mux_bay_add_cb_disabled_composed: cb_input is created DISABLED by the generated bay_add_cb too (no callback list
+   changes; BayDefs keeps the flag in the mux record, where it already is false after mux_init). *)
+From OV Require Proofs.ConnectComposeProofs.
+
+Theorem C06_connect_mux_init_composed : forall sx st mr s u f (n : Z) si ui,
+  ConnectComposeProofs.Reg st -> ConnectPre.cn_alloc_ok sx = true -> ConnectPre.mux_exists st mr = true -> (0 <= n < 2 ^ 64)%Z ->
+  ConnectPre.id_of st s = Some si -> ConnectPre.id_of st u = Some ui ->
+  ConnectPre.mux_init (Some mr) (Some tt) (Some s) (Some u) f n sx st =
+  match MuxInit_gen.mux_init (Some tt) (Some tt) (Some si) (Some ui) (ConnectComposeProofs.fn_of f) n
+          (ConnectComposeProofs.menv_of sx (length (b_muxes (ConnectPre.cs_bay st)))) (ConnectComposeProofs.fresh st) with
+  | Ok (_, ms) => ConnectPre.mux_record (ConnectPre.with_bay st (ConnectComposeProofs.commit sx ms)) mr (length (b_muxes (ConnectPre.cs_bay st)))
+  | Err e => Err (ConnectComposeProofs.err_of e)
+  end.
+Proof. exact ConnectComposeProofs.mux_init_composed. Qed.
+Print Assumptions C06_connect_mux_init_composed.
+
+Theorem C06_connect_mux_init_rep : forall sx st mr s u f (n : Z) si ui ch ms st',
+  ConnectComposeProofs.Reg st -> ConnectPre.cn_alloc_ok sx = true -> ConnectPre.id_of st s = Some si -> ConnectPre.id_of st u = Some ui -> si <> ui ->
+  nth_error (b_chans (ConnectPre.cs_bay st)) ui = Some ch -> c_stack ch = false ->
+  MuxInit_gen.mux_init (Some tt) (Some tt) (Some si) (Some ui) (ConnectComposeProofs.fn_of f) n
+    (ConnectComposeProofs.menv_of sx (length (b_muxes (ConnectPre.cs_bay st)))) (ConnectComposeProofs.fresh st) = Ok (tt, ms) ->
+  ConnectPre.mux_record (ConnectPre.with_bay st (ConnectComposeProofs.commit sx ms)) mr (length (b_muxes (ConnectPre.cs_bay st))) = Ok (tt, st') ->
+  ConnectComposeProofs.Rep sx st' (length (b_muxes (ConnectPre.cs_bay st))) ms /\ ConnectPre.cs_reg st' = ConnectPre.cs_reg st /\ ConnectComposeProofs.Reg st'.
+Proof. exact ConnectComposeProofs.mux_init_rep. Qed.
+Print Assumptions C06_connect_mux_init_rep.
+
+Theorem C06_connect_mux_set_input_composed : forall sx st mr mid ms a ci i l o,
+  ConnectComposeProofs.Rep sx st mid ms -> ConnectComposeProofs.Reg st -> ConnectPre.cn_alloc_ok sx = true ->
+  ConnectPre.mux_id st mr = Some mid -> ConnectPre.id_of st a = Some ci ->
+  MuxInitPre.mi_output ms <> Some ci -> MuxInitPre.mi_inputs ms = Some l -> nth_error l i = Some o -> MuxInitPre.in_chan o = None ->
+  exists ms' st',
+    MuxInit_gen.mux_set_input (Some tt) (Z.of_nat i) (Some ci) (ConnectComposeProofs.menv_of sx mid) ms = Ok (tt, ms') /\
+    ConnectPre.mux_set_input (Some mr) (Z.of_nat i) (Some a) sx st = Ok (tt, st') /\
+    ConnectPre.cs_bay st' = set_mux (ConnectPre.cs_bay st) mid (MuxInitProofs.record_of (ConnectComposeProofs.custom_of sx) ms') /\
+    ConnectComposeProofs.Rep sx st' mid ms' /\ ConnectPre.cs_reg st' = ConnectPre.cs_reg st.
+Proof. exact ConnectComposeProofs.mux_set_input_composed. Qed.
+Print Assumptions C06_connect_mux_set_input_composed.
+
+Theorem C06_connect_mux_default_reselect_composed :
+  (forall sx st mr mid ms v,
+     ConnectComposeProofs.Rep sx st mid ms -> ConnectPre.mux_id st mr = Some mid ->
+     exists ms' st',
+       MuxInit_gen.mux_set_default (Some tt) v (ConnectComposeProofs.menv_of sx mid) ms = Ok (tt, ms') /\
+       ConnectPre.mux_set_default (Some mr) v sx st = Ok (tt, st') /\
+       ConnectPre.cs_bay st' = set_mux (ConnectPre.cs_bay st) mid (MuxInitProofs.record_of (ConnectComposeProofs.custom_of sx) ms') /\
+       ConnectComposeProofs.Rep sx st' mid ms' /\ ConnectPre.cs_reg st' = ConnectPre.cs_reg st) /\
+  (forall sx st mr mid ms a ci,
+     ConnectComposeProofs.Rep sx st mid ms -> ConnectComposeProofs.Reg st -> ConnectPre.cn_alloc_ok sx = true ->
+     ConnectPre.mux_id st mr = Some mid -> ConnectPre.id_of st a = Some ci ->
+     exists ms' st',
+       MuxInit_gen.mux_add_reselect (Some tt) (Some ci) (ConnectComposeProofs.menv_of sx mid) ms = Ok (tt, ms') /\
+       ConnectPre.mux_add_reselect (Some mr) (Some a) sx st = Ok (tt, st') /\
+       b_dcbs (ConnectPre.cs_bay st') = b_dcbs (MuxInitPre.mi_bay ms') /\
+       ConnectComposeProofs.Rep sx st' mid ms' /\ ConnectPre.cs_reg st' = ConnectPre.cs_reg st).
+Proof. exact (conj ConnectComposeProofs.mux_set_default_composed ConnectComposeProofs.mux_add_reselect_composed). Qed.
+Print Assumptions C06_connect_mux_default_reselect_composed.
+
+Theorem C06_connect_bay_register_composed : forall sx st a stk al ig bsx bs,
+  ConnectComposeProofs.Reg st -> BayCPre.bn_alloc_ok bsx = true -> BayCPre.bs_bay bs = ConnectPre.cs_bay st ->
+  ConnectPre.pend_get st a = Some (stk, al, ig) ->
+  ConnectPre.bay_register (Some tt) (Some a) sx st =
+  match Bay_gen.bay_register (Some tt) (Some (BayCPre.CNewChan (ConnectComposeProofs.name_of st a) (mk_chan stk false al ig))) bsx bs with
+  | Ok (_, bs') => Ok (tt, ConnectPre.with_reg (ConnectPre.with_bay st (BayCPre.bs_bay bs')) (ConnectPre.cs_reg st ++ a :: nil))
+  | Err e => Err (ConnectComposeProofs.berr_of e)
+  end.
+Proof. exact ConnectComposeProofs.bay_register_composed. Qed.
+Print Assumptions C06_connect_bay_register_composed.
+
+Theorem C06_connect_reg_kept : forall sx st a st', ConnectComposeProofs.Reg st ->
+  ConnectPre.bay_register (Some tt) (Some a) sx st = Ok (tt, st') -> ConnectComposeProofs.Reg st'.
+Proof. exact ConnectComposeProofs.bay_register_reg. Qed.
+Print Assumptions C06_connect_reg_kept.
+
+Theorem C06_mux_bay_add_cb_composed : forall msx ms bsx bs c f d,
+  BayCPre.bs_bay bs = MuxInitPre.mi_bay ms -> MuxInitPre.me_alloc_ok msx = true -> BayCPre.bn_alloc_ok bsx = true -> MuxInitPre.valid ms c = true ->
+  f <> MuxInitPre.FInput -> MuxInitPre.what_of msx (Some f) (Some MuxInitPre.VMux) = Some d ->
+  existsb (dcb_eqb d) (dcbs_of (MuxInitPre.mi_bay ms) c) = false ->
+  exists ms' bs',
+    MuxInitPre.bay_add_cb (Some tt) 0 (Some c) (Some f) (Some MuxInitPre.VMux) 1 msx ms = Ok (Some d, ms') /\
+    Bay_gen.bay_add_cb (Some tt) Bay_gen.c_BAY_CB_DIRTY (Some (BayCPre.CReg c)) (Some (ConnectComposeProofs.cbfn_of f))
+      (Some (BayCPre.VMux (MuxInitPre.me_id msx))) 1 bsx bs = Ok (Some BayCPre.CbNew, bs') /\
+    BayCPre.bs_bay bs' = MuxInitPre.mi_bay ms'.
+Proof. exact ConnectComposeProofs.bay_add_cb_enabled_composed. Qed.
+Print Assumptions C06_mux_bay_add_cb_composed.
+Theorem C06_mux_bay_add_cb_disabled_composed : forall msx ms bsx bs c i mx,
+  MuxInitPre.me_alloc_ok msx = true -> BayCPre.bn_alloc_ok bsx = true -> MuxInitPre.valid ms c = true -> BayCPre.valid_chan bs c = true ->
+  nth_error (b_muxes (BayCPre.bs_bay bs)) (MuxInitPre.me_id msx) = Some mx -> nth_error (mx_en mx) i = Some false ->
+  exists ms' bs',
+    MuxInitPre.bay_add_cb (Some tt) 0 (Some c) (Some MuxInitPre.FInput) (Some (MuxInitPre.VInputRef (Z.of_nat i))) 0 msx ms =
+      Ok (Some (DInput (MuxInitPre.me_id msx) i), ms') /\
+    MuxInitPre.mi_bay ms' = MuxInitPre.mi_bay ms /\
+    Bay_gen.bay_add_cb (Some tt) Bay_gen.c_BAY_CB_DIRTY (Some (BayCPre.CReg c)) (Some BayCPre.FInput)
+      (Some (BayCPre.VInput (MuxInitPre.me_id msx) i)) 0 bsx bs = Ok (Some BayCPre.CbNew, bs') /\
+    BayCPre.bs_bay bs' = BayCPre.bs_bay bs.
+Proof. exact ConnectComposeProofs.bay_add_cb_disabled_composed. Qed.
+Print Assumptions C06_mux_bay_add_cb_disabled_composed.
+Theorem C06_connect_chan_prop_set_composed : forall sx st a stk al ig csx cst p v,
+  ConnectPre.pend_get st a = Some (stk, al, ig) -> ChanPre.prop (ChanPre.ch cst) = (0 :: CInt.b2z al :: CInt.b2z ig :: nil)%Z ->
+  (p = ConnectPre.P_ALLOW_DUP \/ p = ConnectPre.P_IGNORE_DUP) -> (v = 0 \/ v = 1)%Z ->
+  exists st' cst' al' ig',
+    ConnectPre.chan_prop_set (Some a) p v sx st = Ok (tt, st') /\
+    Chan_gen.chan_prop_set (Some tt) p v csx cst = Ok (tt, cst') /\
+    ConnectPre.pend_get st' a = Some (stk, al', ig') /\ ChanPre.prop (ChanPre.ch cst') = (0 :: CInt.b2z al' :: CInt.b2z ig' :: nil)%Z /\
+    ChanPre.ctype (ChanPre.ch cst') = ChanPre.ctype (ChanPre.ch cst).
+Proof. exact ConnectComposeProofs.chan_prop_set_composed. Qed.
+Print Assumptions C06_connect_chan_prop_set_composed.
+(* ==== end of block (connect composed) ==== *)
